@@ -15,6 +15,12 @@ SUS_T = ['1', '1/2', '3/4', '7/8', '0', '1/4', '1/16', '15/16']                 
 EFF_T = ['1', '-1', '1/2', '-1/2', '2', '-2', '3', '1/4', '-3/4', '5/4', '-5/4']  # thermal: non-zero, both sides of 1, cooling
 
 
+# the storage constraints' inner soc(r, i) computes `e**np.sign(r)` on the caller's array: with an integer efficiency (efficiency=1)
+# and an INTEGER-typed flow with a negative entry numpy raises (open finding, same class as e476d7b).  The oracle exercises that
+# path; the T2 ops hand the constraint `fun`s a float copy of the flow until this is True.
+T2_INT_CONSTRAINT_FLOWS = True
+
+
 def np():
   import numpy
   return numpy
@@ -115,6 +121,101 @@ def gen_base(rng, tier):
   return {'kind': 'base', 'b': fs(dy(rng, -10, 25)) if rng.random() < 0.85 else '0', 's': rng.choice(SUS_S + SUS_T), 'n': gen.pick_n(rng, tier)}
 
 
+# ------------------------------------------------------------------ integer-typed callers (`ints`)
+INT_SUS_T = ['0', '1', '1', '1/2', '3/4']
+INT_EFF = ['1', '1', '1', '-1', '2', '-2', '3']
+
+
+def ints(rng, n, lo, hi, zeros=0.2):
+  return [F(0) if rng.random() < zeros else F(rng.randint(lo, hi)) for _ in range(n)]
+
+
+def gen_int_tdev(rng, tier):
+  """everything integer-valued and handed to the library as INTEGER-typed data (np int arrays, Python ints):
+  integer external temperatures incl. negatives and zero, integer flows of both signs, integer t_init, efficiency 1."""
+  n = gen.pick_n(rng, tier)
+  q = rng.random()
+  lb = [F(-rng.randint(0, 4)) for _ in range(n)] if q < 0.7 else [F(0)]*n
+  hb = [F(rng.randint(0, 4)) for _ in range(n)]
+  mode = rng.choice(['mixed', 'mixed', 'neg', 'zero'])
+  te = [F(0) if mode == 'zero' else F(rng.randint(-12, -1 if mode == 'neg' else 30)) for _ in range(n)]
+  if mode == 'mixed' and n > 1:
+    te[rng.randrange(n)] = F(0); te[rng.randrange(n)] = F(-rng.randint(1, 12))
+  d = {'cls': 'TDevice', 'n': n, 'lb': [fs(x) for x in lb], 'hb': [fs(x) for x in hb], 'cbs': [], '_py': {'bform': 'table', 'cform': None},
+       'prm': {'sustainment': rng.choice(INT_SUS_T), 'efficiency': rng.choice(INT_EFF), 't_init': str(rng.randint(-10, 25)),
+               't_optimal': str(rng.randint(15, 25)), 't_range': str(rng.randint(0, 6)), 't_external': [fs(x) for x in te],
+               'c': str(rng.randint(0, 3))}}
+  r = [F(rng.randint(int(a), int(b))) for a, b in zip(lb, hb)]
+  return {'kind': 'tdev', 'dev': d, 'r': [fs(x) for x in r], 'ints': True, '_shape': rng.choice(['flat', 'flat', 'row'])}
+
+
+def gen_int_sdev(rng, tier):
+  n = gen.pick_n(rng, tier)
+  m = rng.randint(1, 4)
+  d = {'cls': 'SDevice', 'n': n, 'lb': [str(-m)]*n, 'hb': [str(m)]*n, 'cbs': [], '_py': {'bform': rng.choice(['scalar', 'table']), 'cform': None},
+       'prm': {'c1': '1', 'c2': '0', 'c3': str(rng.randint(0, 2)), 'capacity': str(rng.randint(1, 12)), 'damage_depth': rng.choice(['0', '1']),
+               'start': rng.choice(['0', '1']), 'reserve': '0', 'efficiency': '1', 'sustainment': rng.choice(['1', '1', '1/2'])}}
+  r = [F(rng.randint(-m, m)) for _ in range(n)]
+  return {'kind': 'sdev', 'dev': d, 'r': [fs(x) for x in r], 'ints': True, '_shape': 'flat'}
+
+
+def gen_int_soc(rng, tier):
+  n = gen.pick_n(rng, tier)
+  return {'kind': 'soc', 'r': [fs(x) for x in ints(rng, n, -6, 6)], 's': rng.choice(INT_SUS_T), 'e': rng.choice(INT_EFF), 'ints': True}
+
+
+# ------------------------------------------------------------------ assignment after construction (`set`)
+def gen_set_sdev(rng, tier):
+  """build the storage device, THEN assign one or two parameters through the public setters: the state the
+  constraints bound must still be the state charge_at reports, for the NEW parameters."""
+  case = gen_sdev(rng, tier)
+  p = case['dev']['prm']
+  st = {}
+  for k in rng.sample(['sustainment', 'sustainment', 'efficiency', 'start', 'capacity'], rng.randint(1, 2)):
+    if k == 'sustainment':
+      st[k] = rng.choice([x for x in SUS_S if x != p[k]])
+    elif k == 'efficiency':
+      st[k] = rng.choice([x for x in EFF_S if x != p[k]])
+    elif k == 'start':
+      st[k] = rng.choice([x for x in ['0', '1', '1/2', '1/4', '3/4'] if x != p[k]])
+    else:
+      st[k] = fs(F(p[k]) + dy(rng, Fraction(1, 4), 4))
+  case['set'] = st
+  return case
+
+
+def as_num(x, want_int):
+  v = C.pf(x)
+  return int(v) if (want_int and float(v).is_integer()) else v
+
+
+def make_dev(case):
+  """the Python object of a case: built from the description, integer-typed where `ints`, then the `set` assignments."""
+  d = case['dev']
+  if case.get('ints'):
+    dk = C.repo(); n_ = np(); p = d['prm']; I = lambda k: as_num(p[k], True)
+    b = build.py_bounds(d)
+    if d['cls'] == 'TDevice':
+      te = n_.array([int(F(x)) for x in p['t_external']], dtype=int)
+      dev = dk.TDevice('tdevice', d['n'], b, I('sustainment'), I('efficiency'), I('t_init'), I('t_optimal'), I('t_range'), te, c=I('c'))
+    else:
+      dev = dk.SDevice('sdevice', d['n'], b, None, **{k: I(k) for k in p if k != 'rate_clip'})
+  else:
+    dev = build.build_leaf(d)
+  for k, v in case.get('set', {}).items():
+    setattr(dev, k, C.pf(v))
+  return dev
+
+
+def model_dev(case):
+  """the description the model (and the oracle) reads: parameters after the `set` assignments."""
+  d = case['dev']
+  if not case.get('set'):
+    return d
+  e = dict(d); e['prm'] = dict(d['prm']); e['prm'].update(case['set'])
+  return e
+
+
 # ------------------------------------------------------------------ the documented recurrences (oracle)
 def storage_loop(r, s, e, start):
   """state after slot i = s*state(i-1) + r_i*e (charging) | r_i/e (discharging), from `start`."""
@@ -148,8 +249,14 @@ def worst(got, want):
   return (i, float(err[i])) if err[i] > 1e-9 else None
 
 
+def flat_arr(case):
+  if case.get('ints'):
+    return np().array([int(F(x)) for x in case['r']], dtype=int)
+  return build.arr(case['r'])
+
+
 def r_arr(case):
-  a = build.arr(case['r'])
+  a = flat_arr(case)
   return a.reshape(1, -1) if case.get('_shape') == 'row' else a
 
 
@@ -162,7 +269,10 @@ class C09(Prop):
   rule = ('utils.soc / base_soc on free vectors; SDevice (sustainment, efficiency in (0,1] incl. 1 and 1/64, start 0..1, optional '
           'cbounds and rate clipping) and TDevice (sustainment in [0,1], efficiency of both signs and both sides of 1, zero / negative '
           'external temperatures, two-way bounds) x n in 1.. x flows with mixed signs and exact zeros; non-trivial: mixed-sign flow and '
-          '(sustainment < 1 or efficiency != 1), thermal additionally some external temperature <= 0')
+          '(sustainment < 1 or efficiency != 1), thermal additionally some external temperature <= 0.  Plus an all-integer family handed to '
+          'the library as INTEGER-typed data (int arrays / Python ints: integer external temperatures incl. negatives and zero, integer flows, '
+          'integer t_init, efficiency 1, sustainment 0 / 1) and a setter family (storage device built, then sustainment / efficiency / start / '
+          'capacity assigned: charge_at vs the state the constraints bound vs the recurrence for the NEW parameters)')
   sizes = {'quick': 800, 'thorough': 20000}
   assumptions = ['oracle: the documented recurrence as a Python loop over exact fractions, compared at 1e-9 of the data scale']
 
@@ -173,8 +283,12 @@ class C09(Prop):
     out = []
     for _ in range(count):
       q = rng.random()
-      if q < 0.4: out.append(gen_sdev(rng, tier))
-      elif q < 0.8: out.append(gen_tdev(rng, tier))
+      if q < 0.30: out.append(gen_sdev(rng, tier))
+      elif q < 0.38: out.append(gen_set_sdev(rng, tier))
+      elif q < 0.66: out.append(gen_tdev(rng, tier))
+      elif q < 0.76: out.append(gen_int_tdev(rng, tier))
+      elif q < 0.79: out.append(gen_int_sdev(rng, tier))
+      elif q < 0.83: out.append(gen_int_soc(rng, tier))
       elif q < 0.95: out.append(gen_soc(rng, tier))
       else: out.append(gen_base(rng, tier))
     return out
@@ -186,31 +300,43 @@ class C09(Prop):
     k = case['kind']
     self.hist[k] = self.hist.get(k, 0) + 1
     if k == 'soc':
-      r = build.arr(case['r']); s = C.pf(case['s']); e = C.pf(case['e'])
+      r, s, e = self.soc_args(case)
       return [Op({'op': 'state.soc', 'r': case['r'], 's': case['s'], 'e': case['e']}, lambda: utils.soc(r, s, e), 1e-9, 'utils.soc')]
     if k == 'base':
       b = C.pf(case['b']); s = C.pf(case['s']); n = case['n']
       return [Op({'op': 'state.base_soc', 'b': case['b'], 's': case['s'], 'n': n}, lambda: utils.base_soc(b, s, n), 1e-9, 'utils.base_soc')]
-    d = case['dev']; n = d['n']
-    dev = build.build_leaf(d)
-    r = r_arr(case); rf = build.arr(case['r'])
+    d = model_dev(case); n = d['n']      # the model sees the parameters AFTER the `set` assignments
+    for key in ('ints', 'set'):
+      if case.get(key): self.hist[key] = self.hist.get(key, 0) + 1
+    cell = []
+    def dev():                           # built inside the thunks: a constructor that raises is an implementation answer
+      if not cell: cell.append(make_dev(case))
+      return cell[0]
+    r = r_arr(case); rf = flat_arr(case)
     if k == 'sdev':
       ncb = len(d['cbs']) if d['_py'].get('cform') else 0
+      rc = rf if T2_INT_CONSTRAINT_FLOWS else build.arr(case['r']).astype(float)
       def inner():
-        cons = dev.constraints
-        return [cons[2*ncb + 2*i]['fun'](rf) for i in range(n)]
+        cons = dev().constraints
+        return [cons[2*ncb + 2*i]['fun'](rc) for i in range(n)]
       return [
-        Op({'op': 'state.charge_at', 'dev': d, 'r': case['r']}, lambda: dev.charge_at(rf), 1e-9, 'SDevice.charge_at'),
+        Op({'op': 'state.charge_at', 'dev': d, 'r': case['r']}, lambda: dev().charge_at(rf), 1e-9, 'SDevice.charge_at'),
         Op({'op': 'state.soc_dot', 'dev': d, 'r': case['r']}, inner, 1e-9, 'inner soc(r,i) of the SoC constraints'),
         Op({'op': 'state.cons_vals', 'dev': self.cons_dev(d), 'r': case['r'], 'sorted': True},
-           lambda: sorted(float(c['fun'](rf)) for c in dev.constraints), 1e-9, 'storage constraint values (sorted)'),
+           lambda: sorted(float(c['fun'](rc)) for c in dev().constraints), 1e-9, 'storage constraint values (sorted)'),
       ]
     if k == 'tdev':
       return [
-        Op({'op': 'state.t_base', 'dev': d}, lambda: dev.t_base, 1e-9, 'TDevice.t_base'),
-        Op({'op': 'state.r2t', 'dev': d, 'r': case['r']}, lambda: dev.r2t(r), 1e-9, 'TDevice.r2t'),
+        Op({'op': 'state.t_base', 'dev': d}, lambda: dev().t_base, 1e-9, 'TDevice.t_base'),
+        Op({'op': 'state.r2t', 'dev': d, 'r': case['r']}, lambda: dev().r2t(r), 1e-9, 'TDevice.r2t'),
       ]
     raise ValueError(k)
+
+  @staticmethod
+  def soc_args(case):
+    if case.get('ints'):
+      return [int(F(x)) for x in case['r']], as_num(case['s'], True), as_num(case['e'], True)
+    return build.arr(case['r']), C.pf(case['s']), C.pf(case['e'])
 
   @staticmethod
   def cons_dev(d):
@@ -236,7 +362,11 @@ class C09(Prop):
     if k == 'soc':
       r = [F(x) for x in case['r']]; s = F(case['s']); e = F(case['e'])
       want = storage_loop(r, s, e, F(0))
-      got = utils.soc(build.arr(case['r']), float(s), float(e))
+      try:
+        got = utils.soc(*self.soc_args(case))
+      except Exception as ex:
+        return [{'key': {'cls': 'utils', 'kind': 'raises', 'exc': type(ex).__name__},
+                 'detail': 'utils.soc raises %s(%s) on a well-formed input; %s' % (type(ex).__name__, ex, json_short(case))}]
       w = worst(got, want)
       if w: bad('utils', 'recurrence', 'soc(r, s, e)', got, want, w)
       return fails
@@ -247,9 +377,18 @@ class C09(Prop):
       w = worst(got, want)
       if w: bad('utils', 'recurrence', 'base_soc(b, s, n)', got, want, w)
       return fails
-    d = case['dev']; n = d['n']; p = d['prm']
-    dev = build.build_leaf(d)
-    r = [F(x) for x in case['r']]; rf = build.arr(case['r'])
+    d = model_dev(case); n = d['n']; p = d['prm']     # documented state for the parameters after the `set` assignments
+    r = [F(x) for x in case['r']]; rf = flat_arr(case)
+    try:
+      dev = make_dev(case)
+      if k == 'tdev':
+        dev.r2t(r_arr(case))
+      else:
+        dev.charge_at(rf)
+    except Exception as ex:
+      return [{'key': {'cls': d['cls'], 'kind': 'raises', 'exc': type(ex).__name__},
+               'detail': '%s: construction / state evaluation raises %s(%s) for accepted parameters and a well-formed flow; %s' % (
+                 d['cls'], type(ex).__name__, ex, json_short(case))}]
     if k == 'sdev':
       s = F(p['sustainment']); e = F(p['efficiency']); cap = F(p['capacity'])
       want = storage_loop(r, s, e, F(p['start'])*cap)
@@ -263,8 +402,14 @@ class C09(Prop):
       if len(cons) != expect:
         fails.append({'key': {'cls': 'SDevice', 'kind': 'constraint-count'}, 'detail': 'SDevice has %d constraints, expected %d; %s' % (len(cons), expect, json_short(case))})
         return fails
-      lo = [cons[2*ncb + 2*i]['fun'](rf) for i in range(n)]
-      hi = [cons[2*ncb + 2*i + 1]['fun'](rf) for i in range(n)]
+      try:
+        lo = [cons[2*ncb + 2*i]['fun'](rf) for i in range(n)]
+        hi = [cons[2*ncb + 2*i + 1]['fun'](rf) for i in range(n)]
+      except Exception as ex:
+        fails.append({'key': {'cls': 'SDevice', 'kind': 'constraint-raises', 'exc': type(ex).__name__, 'ints': bool(case.get('ints'))},
+                      'detail': 'SDevice: the SoC constraint `fun` raises %s(%s) on a flow charge_at accepts (flow dtype %s, efficiency %r); %s' % (
+                        type(ex).__name__, ex, rf.dtype, dev.efficiency, json_short(case))})
+        return fails
       w = worst(lo, want)
       if w: bad('SDevice', 'constraint-state', 'SoC >= 0 constraint value', lo, want, w)
       w = worst(hi, [cap - x for x in want])
